@@ -579,6 +579,21 @@ def _helper_roles(ctx):
                     and isinstance(n.args[1], ast.Name) and n.args[1].id in f.params:
                 step = (f, n.args[1].id)
     if step is None:
+        # the relation parameter is not read (any more): the helper is still the private method that the
+        # public queries call with the name of a relation, and that does not iterate to a fixpoint
+        lits = {}
+        for f in r.sched.methods.values():
+            for n in walk_local(f.node):
+                if isinstance(n, ast.Call) and isinstance(n.func, ast.Attribute) and isinstance(n.func.value, ast.Name) \
+                        and n.func.value.id == 'self' and n.args and isinstance(n.args[0], ast.Constant) \
+                        and isinstance(n.args[0].value, str) and n.func.attr in r.sched.methods:
+                    lits.setdefault(n.func.attr, set()).add(n.args[0].value)
+        cands = [r.sched.methods[m] for m, v in lits.items() if len(v) >= 2
+                 and not any(isinstance(n, ast.While) for n in walk_local(r.sched.methods[m].node))
+                 and len(r.sched.methods[m].params) > 1]
+        if len(cands) == 1:
+            step = (cands[0], cands[0].params[1])
+    if step is None:
         return None, None
     for f in r.sched.methods.values():
         if f is step[0]:
@@ -749,7 +764,7 @@ def _step_shape(ctx, rep, rule, stepf, attparam):
     va = stepf.vararg
     fors = [n for n in walk_local(stepf.node) if isinstance(n, ast.For)]
     outer = [l for l in fors if isinstance(l.iter, ast.Name) and l.iter.id == va]
-    comp = [n for n in walk_local(stepf.node) if isinstance(n, (ast.SetComp, ast.ListComp))]
+    comp = [n for n in walk_local(stepf.node) if isinstance(n, (ast.SetComp, ast.ListComp, ast.GeneratorExp))]
     if not outer and not comp:
         rep.error(rule, "%s: no loop over the start jobs recognised" % fn)
         return
@@ -804,8 +819,50 @@ def _step_shape(ctx, rep, rule, stepf, attparam):
         rep.check(member_filter, rule, "%s members only" % fn, fn,
                   "neighbours are collected without testing membership in self.jobs",
                   "jobs that are not members of this scheduler are returned")
-    else:
-        rep.ok(rule, "%s comprehension form" % fn)
+    # the value returned, read as set-builder terms (the comprehension form, and what the collecting
+    # loops fold into): {n for s in starts for n in getattr(s, att) if n in self.jobs}
+    an, ip, out = ctx.explore(stepf, model=GraphModel)
+    MEMB = T.mk(('attr', T.SELF, 'jobs'))
+    ncomp = 0
+    for st, val, node in out.ret:
+        for c in T.subterms(val):
+            if not (c[0] == 'comp' and isinstance(c[1], str) and len(c) == 4):
+                continue
+            elt, gens = c[2], c[3]
+            if not (elt[0] == 'elem' and elt[1][0] == 'call' and elt[1][1] == 'getattr'):
+                if comp and not outer:
+                    rep.fail(rule, "%s collects the neighbours read with getattr" % ip.where(node), fn,
+                             "collects %s" % T.show(elt, 4), "the step does not return the neighbours")
+                continue
+            ncomp += 1
+            ga = elt[1][2]
+            okrel = len(ga) == 2 and ga[1] == T.mk(('var', attparam)) and ga[0][0] == 'elem' \
+                and ga[0][1] == T.mk(('var', va))
+            rep.check(okrel, rule, "%s neighbours read from every start job along the requested relation"
+                      % ip.where(node), fn, "reads %s" % T.show(elt[1], 4),
+                      "the step follows another relation than the one requested, or not from the start jobs")
+            member, extra = False, []
+            for (_key, it, conds) in gens:
+                for cd in conds:
+                    pol = True
+                    while cd[0] == 'unop' and cd[1] == 'not':
+                        cd, pol = cd[2], not pol
+                    if cd[0] == 'cmp' and cd[1] in ('in', 'not in') and cd[2] == elt:
+                        isin = (cd[1] == 'in') == pol
+                        if cd[3] == MEMB and isin:
+                            member = True
+                            continue
+                        if cd[3] != MEMB and not isin and cd[3][0] in ('union', 'unk', 'comp', 'var'):
+                            continue       # "not yet collected"
+                    extra.append(cd)
+            rep.check(member, rule, "%s members only (set-builder form)" % ip.where(node), fn,
+                      "neighbours are collected without testing membership in self.jobs: %s" % T.show(c, 3)[:160],
+                      "jobs that are not members of this scheduler are returned")
+            rep.check(not extra, rule, "%s no further filter (set-builder form)" % ip.where(node), fn,
+                      "extra condition(s): %s" % [T.show(x, 3) for x in extra][:3],
+                      "some direct neighbours that are members are not returned")
+    if comp and not outer:
+        rep.need(rule, ncomp, 1, "set-builder terms returned by %s" % fn)
 
 
 class ClosureModel(GraphModel):
